@@ -974,17 +974,15 @@ class EarlyStopConverter:
     """Conversion from PyVizier to proto."""
     decision_protos = []
     for decision in decisions.decisions:
-      predicted_final_measurement_proto = study_pb2.Measurement()
-      if decision.predicted_final_measurement:
-        predicted_final_measurement_proto = MeasurementConverter.to_proto(
-            decision.predicted_final_measurement
-        )
       decision_proto = pythia_service_pb2.EarlyStopDecision(
           id=decision.id,
           reason=decision.reason,
           should_stop=decision.should_stop,
-          predicted_final_measurement=predicted_final_measurement_proto,
       )
+      if decision.predicted_final_measurement is not None:
+        decision_proto.predicted_final_measurement.CopyFrom(
+            MeasurementConverter.to_proto(decision.predicted_final_measurement)
+        )
       decision_protos.append(decision_proto)
     key_value_protos = MetadataDeltaConverter.to_protos(decisions.metadata)
     return pythia_service_pb2.EarlyStopDecisions(
@@ -999,13 +997,16 @@ class EarlyStopConverter:
     """Conversion from proto to PyVizier."""
     decisions = []
     for decision_proto in proto.decisions:
+      predicted_final_measurement = None
+      if decision_proto.HasField('predicted_final_measurement'):
+        predicted_final_measurement = MeasurementConverter.from_proto(
+            decision_proto.predicted_final_measurement
+        )
       decision = policy.EarlyStopDecision(
           id=decision_proto.id,
           reason=decision_proto.reason,
           should_stop=decision_proto.should_stop,
-          predicted_final_measurement=MeasurementConverter.from_proto(
-              decision_proto.predicted_final_measurement
-          ),
+          predicted_final_measurement=predicted_final_measurement,
       )
       decisions.append(decision)
     metadata = MetadataDeltaConverter.from_protos(proto.metadata)
